@@ -322,6 +322,97 @@ Proof.
 Qed.
 Print Assumptions C18_sim_nonvacuous.
 
+(* ---- byte-level output (V4OutputFacts.v): the bytes the legacy Apply / ApplyIndent return ---- *)
+From JP Require Import Scan PrintParse OutputFacts V4OutputFacts.
+
+(* the invariant: every raw message held by the legacy state is made of tokens the reader accepts;
+   kept by every operation, for ARBITRARY operations, paths and package variables *)
+Theorem C18_step_keeps_tokens : forall g st op st',
+  stok4 st -> op_tok op -> step4 g st op = Ok st' -> stok4 st'.
+Proof. exact step4_ntok. Qed.
+Print Assumptions C18_step_keeps_tokens.
+
+Theorem C18_decoded_patch_tokens : forall bs p, api_decode4 bs = Some p -> Forall op_tok p.
+Proof. exact api_decode4_tok. Qed.
+Print Assumptions C18_decoded_patch_tokens.
+
+(* every parsed document, every patch whose values are tokens (every decoded patch), every setting of
+   the package variables, every indent: the output is output4 of the result tree, which is made of
+   tokens; if it nests at most max_depth deep and the indent is white space, the bytes are a JSON
+   text that reads back as (the HTML-escaped spelling of) that tree, with the same value; and
+   ApplyIndent's output is Indent of Apply's *)
+Theorem C18_output_general : forall g indent p doc t out,
+  parse doc = Some t -> Forall op_tok p -> api_apply4 g indent p doc = Out4 out ->
+  exists tr, result4_tree g p t = Some tr /\ out = output4 indent tr /\ tok tr /\ root_shape tr /\
+    ((Text.tdepth tr <= max_depth)%N ->
+       (wsb indent = true ->
+          parse out = Some (escape_tree true tr) /\ valid_gen out = true /\
+          exists t', parse out = Some t' /\ den t' = den tr) /\
+       (indent <> [] -> exists out0, api_apply4 g [] p doc = Out4 out0 /\ indent_go indent out0 = Some out)).
+Proof. exact api_apply4_output_general. Qed.
+Print Assumptions C18_output_general.
+
+(* the tree written for a good node nests as deep as the value it denotes; values equal up to member
+   order nest equally deep *)
+Theorem C18_render_depth : forall n, ngood4 n -> Text.tdepth (render4 n) = odepth (aval4 n).
+Proof. exact render4_depth. Qed.
+Print Assumptions C18_render_depth.
+
+Theorem C18_depth_respects_order : forall a b, veq a b -> odepth a = odepth b.
+Proof. exact veq_depth. Qed.
+Print Assumptions C18_depth_respects_order.
+
+(* in the domain of C18_apply_refines_rfc, for patches whose values are tokens and a white-space
+   indent: if the RFC 6902 result nests at most max_depth deep, the bytes returned are a JSON text
+   that parses to a value without duplicate names equal, up to member order, to the RFC 6902 result *)
+Theorem C18_apply_output_bytes : forall g indent p doc t,
+  g_limit g = 0%Z ->
+  parse doc = Some t -> root_container t = true -> tnodup t = true -> tplain t -> tkeys t ->
+  Forall op_dom4 p -> Forall op_tok p -> no_deviation (d4 g) (den t) (map den_op p) = true ->
+  wsb indent = true ->
+  match rfc_apply (d4 g) (den t) (map den_op p) with
+  | Done j =>
+      (odepth j <= max_depth)%N ->
+      exists out t', api_apply4 g indent p doc = Out4 out /\ parse out = Some t' /\
+                     jeq (den t') j = true /\ onodup (den t') = true /\ valid_gen out = true /\
+        (indent <> [] -> exists out0, api_apply4 g [] p doc = Out4 out0 /\ indent_go indent out0 = Some out)
+  | Failed i cz => exists e, api_apply4 g indent p doc = Err4 (Some i) e /\ cause_rel cz e
+  end.
+Proof. exact api_apply4_output_bytes. Qed.
+Print Assumptions C18_apply_output_bytes.
+
+Theorem C18_apply_output_rfc : forall g indent p doc t j,
+  g_limit g = 0%Z ->
+  parse doc = Some t -> root_container t = true -> tnodup t = true -> tplain t -> tkeys t ->
+  Forall op_dom4 p -> Forall op_tok p -> no_deviation (d4 g) (den t) (map den_op p) = true ->
+  wsb indent = true ->
+  rfc_apply (d4 g) (den t) (map den_op p) = Done j -> (odepth j <= max_depth)%N ->
+  exists out t', api_apply4 g indent p doc = Out4 out /\ parse out = Some t' /\ veq (den t') j /\ valid_gen out = true.
+Proof. exact api_apply4_output_rfc. Qed.
+Print Assumptions C18_apply_output_rfc.
+
+(* non-vacuity: the document and patch of C18_sim_nonvacuous, indented with two spaces *)
+Example C18_output_nonvacuous :
+  exists out t', api_apply4 (mkOpts4 true 0 None) (B "  ") C18_exp C18_exdoc = Out4 out /\ parse out = Some t' /\
+    veq (den t') (den (match parse (B "{""a"":{""x"":""hi""},""b"":[7,2],""c"":{""y"":1,""x"":""hi""},""z"":1}") with Some t => t | None => TNull end)) /\
+    valid_gen out = true.
+Proof.
+  apply (C18_apply_output_rfc (mkOpts4 true 0 None) (B "  ") C18_exp C18_exdoc C18_ext).
+  - reflexivity.
+  - vm_compute; reflexivity.
+  - reflexivity.
+  - vm_compute; reflexivity.
+  - vm_compute; repeat split.
+  - vm_compute; repeat split; utf8_ascii.
+  - exact C18_ex_dom.
+  - apply (api_decode4_tok C18_expatch). vm_compute. reflexivity.
+  - vm_compute; reflexivity.
+  - reflexivity.
+  - vm_compute; reflexivity.
+  - vm_compute. intro H; discriminate H.
+Qed.
+Print Assumptions C18_output_nonvacuous.
+
 Example C18_nonvacuous :
   match api_decode4 (B "[{""op"":""add"",""path"":""/a/-"",""value"":3},{""op"":""copy"",""from"":""/a"",""path"":""/b""},{""op"":""remove"",""path"":""/a/-3""},{""op"":""test"",""path"":""/b"",""value"":[1,2,3]}]") with
   | Some p => api_apply4 (mkOpts4 true 0 None) [] p (B "{""z"":1.50,""a"":[1,2]}") = Out4 (B "{""a"":[2,3],""b"":[1,2,3],""z"":1.50}")
